@@ -1,6 +1,7 @@
 package main
 
 import (
+	"os"
 	"fmt"
 	"go/token"
 	"go/types"
@@ -138,6 +139,7 @@ type Ctx struct {
 	opReads    map[string][]string
 	inlineExtra map[string]bool
 	top        *FuncContract
+	havocAlloc string
 	subFuns    []string
 }
 
@@ -465,17 +467,20 @@ func (c *Ctx) comp(st *State, key, sort string) string {
 	c.compSort[key] = sort
 	name := c.freshComp(key, sort)
 	c.initial[key] = name
-	c.closedAxiom(key, sort, name)
+	if a0, ok := c.initial["alloc"]; ok {
+		c.closedAxiom(key, sort, name, a0)
+	}
 	return name
 }
 
 // closedAxiom: in the entry heap, references stored in allocated objects point to allocated objects.
-func (c *Ctx) closedAxiom(key, sort, name string) {
+// (the same holds in every reachable state w.r.t. the allocation set of that state; closedAxiom is therefore also
+// applied to component versions introduced by havoc, with the allocation set current at that point)
+func (c *Ctx) closedAxiom(key, sort, name, a0 string) {
 	if key == "alloc" {
 		return
 	}
-	a0, ok := c.initial["alloc"]
-	if !ok {
+	if os.Getenv("GOVC_NOCLOSED") != "" && a0 != c.initial["alloc"] {
 		return
 	}
 	switch {
